@@ -230,6 +230,36 @@ def register(R):
                'implies(not isnan(self._max), val(self._max) == max(val(old(self._max)), val(other._max)))'],
       bounded='bounded_partition'))
 
+  # frequency states (TopKWordNGrams / PatternFrequency): merging ADDS the count of every n-gram / pattern - the long tail
+  # included, an n-gram outside today's top k can be on top after the next merge - and leaves the operand alone
+  R.cls('FrequencyState', dict(counter='counter[obj]', count='int'))
+  R.cls('TopKWordNGrams', dict(k='int', n='int', use_first_ngram_only='bool', count_duplicate='bool', _state='FrequencyState'))
+  R.cls('PatternFrequency', dict(patterns='obj', count_duplicate='bool', _state='FrequencyState'))
+
+  @R.spec
+  def count_of(it, a, k):       # collections.Counter: a key that is not stored counts 0
+    m, key = a[0], it.to_obj(a[1])
+    return VInt(z3.If(z3.Select(m.has, key), z3.Select(m.val, key), z3.IntVal(0)))
+
+  TX = 'ml_metrics/_src/aggregates/text.py'
+  ADDS = lambda s, o: [f"forall(lambda g: count_of({s}.counter, g) == old(count_of({s}.counter, g)) + count_of({o}.counter, g), 'obj')",
+                       f'{s}.count == old({s}.count) + {o}.count',
+                       f"forall(lambda g: count_of({o}.counter, g) == old(count_of({o}.counter, g)), 'obj')", f'{o}.count == old({o}.count)']
+  R.add(Contract(f'{AU}::FrequencyState.merge', PROPS, types=dict(self='FrequencyState', other='FrequencyState'),
+                 modifies=['self.counter', 'self.count'], ensures=ADDS('self', 'other'), bounded='bounded_algebra',
+                 note='A2: collections.Counter.update adds key by key'))
+  for cls in ('TopKWordNGrams', 'PatternFrequency'):
+    R.add(Contract(f'{TX}::{cls}.merge', PROPS, types=dict(self=cls, other=cls),
+                   modifies=['self._state.counter', 'self._state.count'], ensures=ADDS('self._state', 'other._state'), bounded='bounded_algebra',
+                   note='the merged state keeps the count of EVERY n-gram / pattern (no pruning to the current top k)'))
+
+  R.cls('Counter', dict(_counter='counter[obj]'))
+  R.add(Contract(f'{RS}::Counter.merge', PROPS, types=dict(self='Counter', other='Counter'), ret='Counter', modifies=['self._counter'],
+                 ensures=['result is self',
+                          "forall(lambda g: count_of(self._counter, g) == old(count_of(self._counter, g)) + count_of(other._counter, g), 'obj')",
+                          "forall(lambda g: count_of(other._counter, g) == old(count_of(other._counter, g)), 'obj')"],
+                 bounded='bounded_algebra'))
+
   # ThresholdedRetrieval: the value read for a metric is a function of the CURRENT counts, whatever was read before
   # (the state may already have been read in any earlier state: memoised getters are modelled, see memoised_get)
   RT = 'ml_metrics/_src/aggregates/retrieval.py'
